@@ -83,6 +83,11 @@ class _Mem(FnSpec):
 class MemoryStore_has_blob(_Mem):
     qualname = "MemoryStore.has_blob"
 
+    def __init__(self):
+        super().__init__()
+        # a sibling method called on self is checked against its contract (modular), not its body
+        self.classes["MemoryStore"] = {"fetch_blob": MemoryStore_fetch_blob().as_callee()}
+
     def make_args(self, eng):
         return {"self": mem_obj(), "key": KEY.const("key")}
 
@@ -94,6 +99,13 @@ class MemoryStore_has_blob(_Mem):
 
 class MemoryStore_fetch_blob(_Mem):
     qualname = "MemoryStore.fetch_blob"
+    result_ty = ANY
+
+    def param_names(self):
+        return ["self", "key"]
+
+    def modifies(self, ctx):
+        return []
 
     def make_args(self, eng):
         return {"self": mem_obj(), "key": KEY.const("key")}
